@@ -159,17 +159,37 @@ pub fn extreme_felts() -> Vec<(&'static str, Felt)> {
         ("63", Felt::from(63u64)),
         ("65", Felt::from(65u64)),
         ("2^16", models::pow2(16)),
+        ("2^22", models::pow2(22)),
+        ("2^26", models::pow2(26)),
+        ("2^31", models::pow2(31)),
+        ("2^32-1", models::pow2(32) - Felt::ONE),
+        ("2^32", models::pow2(32)),
         ("2^40", models::pow2(40)),
+        ("2^61", models::pow2(61)),
+        ("2^63", models::pow2(63)),
+        ("2^64-1", models::pow2(64) - Felt::ONE),
         ("2^64", models::pow2(64)),
+        ("2^64+2", models::pow2(64) + Felt::TWO),
+        ("2^64+10", models::pow2(64) + Felt::from(10u64)),
         ("2^128", models::pow2(128)),
+        ("2^128+3", models::pow2(128) + Felt::THREE),
+        ("2^192+5", models::pow2(192) + Felt::from(5u64)),
         ("p-1", Felt::ZERO - Felt::ONE),
         ("p-2", Felt::ZERO - Felt::TWO),
     ]
 }
 
 pub fn extreme_nums(max: u128) -> Vec<(&'static str, u128)> {
-    let mut v: Vec<(&'static str, u128)> =
-        vec![("0", 0), ("1", 1), ("2^16", 1 << 16), ("2^40", 1 << 40), ("max", max.min(u64::MAX as u128))];
+    let mut v: Vec<(&'static str, u128)> = vec![
+        ("0", 0),
+        ("1", 1),
+        ("2^16", 1 << 16),
+        ("2^18", 1 << 18),
+        ("2^31", 1 << 31),
+        ("2^40", 1 << 40),
+        ("2^62", 1 << 62),
+        ("max", max.min(u64::MAX as u128)),
+    ];
     v.retain(|(_, x)| *x <= max);
     v
 }
@@ -544,10 +564,15 @@ pub fn c18(ctx: &mut Ctx) {
             work.push(("structural".into(), fl));
         }
         let mut nf = numeric_faults(&base.image, true);
-        if !exhaustive && nf.len() > 600 {
-            // dynamic layout has hundreds of numeric parameters: sample
-            rng.shuffle(&mut nf);
-            nf.truncate(600);
+        if !exhaustive && nf.len() > 900 {
+            // dynamic layout has hundreds of numeric parameters: sample, but keep sizes/ratios/counts
+            let (keep, mut rest): (Vec<_>, Vec<_>) = nf.into_iter().partition(|(_, fl)| {
+                fl.first().map(|f| { let p = f.path(); p.contains("row_ratio") || p.contains("n_columns") || p.contains("n_queries") || p.contains("n_layers") || p.contains("log_") || p.contains("step") }).unwrap_or(false)
+            });
+            rng.shuffle(&mut rest);
+            rest.truncate(900usize.saturating_sub(keep.len()).max(200));
+            nf = keep;
+            nf.extend(rest);
         }
         work.extend(nf.into_iter().map(|(n, f)| (format!("numeric:{n}"), f)));
         work.extend(byzantine_fri_redeclarations(&base.image).into_iter().map(|(n, f)| (format!("byzantine:{n}"), f)));
@@ -691,9 +716,16 @@ pub fn c17(ctx: &mut Ctx) {
     for (bi, base) in bases.iter().enumerate() {
         let mut rng = Rng::derive(ctx.seed, scenario, bi as u64);
         let mut work: Vec<(String, Vec<Fault>)> = numeric_faults(&base.image, true);
-        if ctx.is_quick() && work.len() > 700 {
-            rng.shuffle(&mut work);
-            work.truncate(700);
+        if ctx.is_quick() && work.len() > 900 {
+            // keep everything that touches a size / ratio / count (the loop- and allocation-bound
+            // candidates), sample the rest
+            let (keep, mut rest): (Vec<_>, Vec<_>) = work.into_iter().partition(|(_, fl)| {
+                fl.first().map(|f| { let p = f.path(); p.contains("row_ratio") || p.contains("n_columns") || p.contains("n_queries") || p.contains("n_layers") || p.contains("log_") || p.contains("step") }).unwrap_or(false)
+            });
+            rng.shuffle(&mut rest);
+            rest.truncate(900usize.saturating_sub(keep.len()).max(200));
+            work = keep;
+            work.extend(rest);
         }
         work.extend(byzantine_fri_redeclarations(&base.image));
         // control: vector-length inflation (more data => more work, must stay in budget)
